@@ -51,30 +51,35 @@ theorem pixelscale_refusal_unit_free (f : Int → Int) (hf : Function.Injective 
 
 /-! ## Metadata hand-over -/
 section handover
-variable {K R M : Type} [Zero K] [Mul K]
+variable {K R M : Type} [Zero K] [Mul K] [FocalLike M]
 
 /-- **what `Plane.multiply` hands over** (about the *generated* `Gen.planeMultiplyHandover`, `planeMultiplyPixelscaleArgs`,
-`planeMultiplyShape`, read off the source on every run): the new wavefront gets the incoming wavefront's wavelength and
-focal length, the reconciled pixel scale `_mul_pixelscale(plane, wavefront)`, the plane's shape unless that is `()`, and
+`planeMultiplyShape`, and `Gen.wavefrontInitFocal` of `Wavefront.__init__`, read off the source on every run): the new wavefront
+gets the incoming wavefront's wavelength, its focal length if that is truthy and `inf` otherwise, the reconciled pixel scale `_mul_pixelscale(plane, wavefront)`, the plane's shape unless that is `()`, and
 the data of `planeMultiply` at the incoming wavelength -/
 theorem plane_multiply_handover (phOf : M → R → K) (p : PlaneM K R) (ppx : Option (Int × Int)) (w : Wf K M) :
     planeMultiplyW phOf p ppx w = (mulPixelscale ppx w.pixelscale).map fun px =>
-      { wavelength := w.wavelength, focal := w.focal, pixelscale := px,
+      { wavelength := w.wavelength, focal := (if FocalLike.truthy w.focal then w.focal else FocalLike.inf), pixelscale := px,
         shape := (match p.shape with | none => w.shape | some s => some s),
         data := planeMultiply (phOf w.wavelength) p w.data } := by
   unfold planeMultiplyW
-  simp only [Gen.planeMultiplyPixelscaleArgs, Gen.planeMultiplyHandover, Gen.planeMultiplyShape, Wf.ofHandover]
+  simp only [Gen.planeMultiplyPixelscaleArgs, Gen.planeMultiplyHandover, Gen.planeMultiplyShape, Gen.wavefrontInitFocal, Wf.ofHandover]
   congr 1
   funext px
   cases p.shape <;> rfl
 
-/-- passing through a plane leaves the wavelength and the focal length unchanged, whatever the plane -/
+/-- passing through a plane leaves the wavelength unchanged, whatever the plane; the focal length passes through unchanged when
+it is truthy, and a falsy one (`None`, `0`) becomes `inf` (the constructor's "plane wave" default) -/
 theorem plane_keeps_wavelength (phOf : M → R → K) (p : PlaneM K R) (ppx : Option (Int × Int)) (w w' : Wf K M)
-    (h : planeMultiplyW phOf p ppx w = .ok w') : w'.wavelength = w.wavelength ∧ w'.focal = w.focal := by
+    (h : planeMultiplyW phOf p ppx w = .ok w') :
+    w'.wavelength = w.wavelength ∧ (FocalLike.truthy w.focal = true → w'.focal = w.focal) ∧
+      (FocalLike.truthy w.focal = false → w'.focal = FocalLike.inf) := by
   rw [plane_multiply_handover] at h
   cases hp : mulPixelscale ppx w.pixelscale with
   | error e => rw [hp] at h; simp [Except.map] at h
-  | ok px => rw [hp] at h; simp only [Except.map, Except.ok.injEq] at h; subst h; exact ⟨rfl, rfl⟩
+  | ok px =>
+    rw [hp] at h; simp only [Except.map, Except.ok.injEq] at h; subst h
+    exact ⟨rfl, fun ht => by simp only [ht, if_true], fun hf => by simp only [hf, Bool.false_eq_true, if_false]⟩
 
 /-- a pupil hands over its focal length (and still leaves the wavelength alone); the data are those of `Plane.multiply` -/
 theorem pupil_sets_focal_length (phOf : M → R → K) (p : PlaneM K R) (ppx : Option (Int × Int)) (fl : M) (w w' : Wf K M)
@@ -105,12 +110,12 @@ theorem image_multiply_eq_plane (phOf : M → R → K) (p : PlaneM K R) (ppx : O
   | error e => rfl
   | ok w' => rfl
 
-/-- the plane with default attributes and no pixel scale leaves wavelength, focal length, pixel scale and shape alone -/
-theorem default_plane_keeps_metadata [One K] (phOf : M → R → K) (o : R) (w : Wf K M) :
+/-- the plane with default attributes and no pixel scale leaves wavelength, (truthy) focal length, pixel scale and shape alone -/
+theorem default_plane_keeps_metadata [One K] (phOf : M → R → K) (o : R) (w : Wf K M) (ht : FocalLike.truthy w.focal = true) :
     ∃ w', planeMultiplyW phOf ⟨.scalar 1, .scalar o, .scalar true⟩ none w = .ok w' ∧ w'.wavelength = w.wavelength ∧
       w'.focal = w.focal ∧ w'.pixelscale = w.pixelscale ∧ w'.shape = w.shape := by
   rw [plane_multiply_handover, pixelscale_refusal]
-  exact ⟨_, rfl, rfl, rfl, rfl, rfl⟩
+  exact ⟨_, rfl, rfl, by simp only [ht, if_true], rfl, rfl⟩
 
 /-- the multiplication is refused exactly when `_mul_pixelscale` refuses -/
 theorem plane_refuses_iff (phOf : M → R → K) (p : PlaneM K R) (ppx : Option (Int × Int)) (w : Wf K M) :
@@ -339,7 +344,7 @@ theorem plane_phasors_scale (k wavelength : ℝ) (hk : k ≠ 0) (amp : Attr ℂ)
   rw [this]
 
 /-- and the wavefront-level multiplication uses exactly this factor with the wavefront's own wavelength -/
-theorem plane_uses_wavefront_wavelength (p : PlaneM ℂ ℝ) (ppx : Option (Int × Int)) (w w' : Wf ℂ ℝ)
+theorem plane_uses_wavefront_wavelength [FocalLike ℝ] (p : PlaneM ℂ ℝ) (ppx : Option (Int × Int)) (w w' : Wf ℂ ℝ)
     (h : planeMultiplyW (fun wl o => planePh wl o) p ppx w = .ok w') :
     w'.data = planeMultiply (planePh w.wavelength) p w.data := by
   rw [plane_multiply_handover] at h
@@ -410,7 +415,7 @@ sum of all fields at the global coordinate `(i - S0/2, j - S1/2)` — any number
 partly inside or outside the array -/
 theorem field_eq_sum (S0 S1 : Int) (data : List (Fld K)) (i j : Int) (hi : 0 ≤ i ∧ i < S0) (hj : 0 ≤ j ∧ j < S1) :
     (wfField 1 S0 S1 data).get i j = sumList data (fun f => f.emb (i - S0 / 2) (j - S1 / 2)) := by
-  unfold wfField
+  rw [wfField_eq]
   suffices h : ∀ (out : Arr K), out.s0 = S0 → out.s1 = S1 →
       (data.foldl (fun out f => insertArr f out 1) out).get i j
         = out.get i j + sumList data (fun f => f.emb (i - S0 / 2) (j - S1 / 2)) by
@@ -461,7 +466,7 @@ example : reduce [Witness.a55] = [Witness.a55].map some ∧
 /-- `Wavefront.insert(out, weight)` in terms of what `reduce` returns (`gs`) -/
 theorem wfInsert_of_reduce (nsq : K → K) (data gs : List (Fld K)) (hred : reduce data = gs.map some) (out : Arr K) (w : K) :
     wfInsert nsq data out w = some (gs.foldl (fun o g => insertArr g o w nsq) out) := by
-  unfold wfInsert; rw [hred]; clear hred
+  rw [wfInsert_eq, hred]; clear hred
   induction gs generalizing out with
   | nil => rfl
   | cons g gs ih =>
@@ -471,7 +476,7 @@ theorem wfInsert_of_reduce (nsq : K → K) (data gs : List (Fld K)) (hred : redu
 /-- when `wfInsert` returns, `reduce` returned fields only (it always does: `wavefront_insert_defined`) -/
 theorem wfInsert_some (nsq : K → K) (data : List (Fld K)) (out out' : Arr K) (w : K)
     (h : wfInsert nsq data out w = some out') : ∃ gs : List (Fld K), reduce data = gs.map some := by
-  unfold wfInsert at h
+  rw [wfInsert_eq] at h
   generalize reduce data = l at h
   have hnone : ∀ (l : List (Option (Fld K))), l.foldl (insertStep nsq w) none = none := by
     intro l; induction l with
@@ -501,7 +506,8 @@ theorem wavefront_insert_defined (nsq : K → K) (data : List (Fld K)) (out : Ar
 
 /-- and so does `Wavefront.intensity` -/
 theorem intensity_defined (nsq : K → K) (S0 S1 : Int) (data : List (Fld K)) :
-    ∃ I, wfIntensity 1 nsq S0 S1 data = some I := wavefront_insert_defined nsq data _ 1
+    ∃ I, wfIntensity 1 nsq S0 S1 data = some I := by
+  rw [wfIntensity_eq]; exact wavefront_insert_defined nsq data _ 1
 
 /-- **`Wavefront.insert(out, weight)` adds `weight * |field|^2` and nothing else**: whenever the call returns, every
 sample of the target is its prior content plus `weight` times the squared modulus of the *coherent sum* of all fields at
